@@ -135,6 +135,7 @@ class Worker:
         box = self.pid
         self.cls = MultiProcessValue(lambda: box[0])
         self.metrics = {}
+        self.held = {}          # handle -> a metric object / labels() child the application keeps a reference to (C09)
 
 
 def make_metric(d):
@@ -249,10 +250,37 @@ def run_case(case):
                 else:
                     w = workers[op[1]]
                     values.ValueClass = w.cls
-                    if kind == 'new':
+                    if kind == 'new' or kind == 'renew':
+                        # 'renew': the metric is declared AGAIN (registry=None); objects of the first declaration that
+                        # the history holds through 'keep' stay alive and usable
                         w.metrics[op[2]] = make_metric(catalog[op[2]])
                     elif kind == 'child':
                         target(w, op[2], op[3])
+                    elif kind == 'keep':
+                        # the application keeps a reference to a labels() child (or to an unlabelled metric object)
+                        w.held[op[4]] = target(w, op[2], op[3])
+                    elif kind == 'remove' or kind == 'clear':
+                        import warnings
+                        with warnings.catch_warnings():
+                            warnings.simplefilter('ignore')
+                            if kind == 'remove':
+                                w.metrics[op[2]].remove(*op[3])
+                            else:
+                                w.metrics[op[2]].clear()
+                    elif kind == 'hinc':
+                        w.held[op[2]].inc(op[3])
+                    elif kind == 'hdec':
+                        w.held[op[2]].dec(op[3])
+                    elif kind == 'hset':
+                        CLOCK[0] = op[4]
+                        w.held[op[2]].set(op[3])
+                    elif kind == 'hobs':
+                        w.held[op[2]].observe(op[3])
+                    elif kind == 'hget':
+                        t = w.held[op[2]]
+                        which = op[3]
+                        o = {'get': (t._value if which == '' else t._sum if which == 'sum' else t._count if which == 'count'
+                                     else t._buckets[which]).get()}
                     elif kind == 'inc':
                         target(w, op[2], op[3]).inc(op[4])
                     elif kind == 'dec':
